@@ -4,6 +4,7 @@
 package c15
 
 import (
+	"bufio"
 	"bytes"
 	"errors"
 	"fmt"
@@ -294,10 +295,49 @@ func (w *scriptWriter) Write(b []byte) (int, error) {
 	return len(b), nil
 }
 
+// richWriter offers every optional writing interface of the standard library; whatever way the bytes arrive, they
+// are bytes handed to the wrapped writer.
+type richWriter struct{ scriptWriter }
+
+func (w *richWriter) WriteByte(c byte) error {
+	w.got = append(w.got, c)
+	return nil
+}
+
+func (w *richWriter) WriteString(s string) (int, error) {
+	w.got = append(w.got, s...)
+	return len(s), nil
+}
+
+func (w *richWriter) WriteRune(r rune) (int, error) {
+	b := []byte(string(r))
+	w.got = append(w.got, b...)
+	return len(b), nil
+}
+
+func (w *richWriter) ReadFrom(r io.Reader) (int64, error) {
+	b, err := io.ReadAll(r)
+	w.got = append(w.got, b...)
+	return int64(len(b)), err
+}
+
+const (
+	wrapScript = iota
+	wrapBytesBuffer
+	wrapStringsBuilder
+	wrapBufio
+	wrapRich
+	nWraps
+)
+
+var wrapNames = [...]string{"scripted writer", "*bytes.Buffer", "*strings.Builder", "*bufio.Writer", "writer with WriteByte/WriteString/WriteRune/ReadFrom"}
+
 type writeCase struct {
-	Limit  int   `json:"limit"`
-	Chunks []int `json:"chunk_sizes"`
-	Script []int `json:"writer_script"`
+	// Wrapped selects the wrapped writer (wrapScript by default); the standard ones never fail
+	Wrapped int   `json:"wrapped_writer"`
+	Limit   int   `json:"limit"`
+	Chunks  []int `json:"chunk_sizes"`
+	Script  []int `json:"writer_script"`
 	// Huge, when non-zero, replaces Limit: limits around MaxInt and MaxUint ("never truncate")
 	Huge uint `json:"huge_limit"`
 	// ViaString: every other chunk is written with io.WriteString
@@ -312,7 +352,23 @@ func runWrite(c writeCase) (what string, calls int) {
 	if c.Huge != 0 {
 		limit = c.Huge
 	}
-	tw := ioutil.NewTruncatedWriter(sw, limit)
+	var wrapped io.Writer = sw
+	received := func() []byte { return sw.got }
+	switch c.Wrapped {
+	case wrapBytesBuffer:
+		bb := &bytes.Buffer{}
+		wrapped, received = bb, bb.Bytes
+	case wrapStringsBuilder:
+		sb := &strings.Builder{}
+		wrapped, received = sb, func() []byte { return []byte(sb.String()) }
+	case wrapBufio:
+		bw := bufio.NewWriterSize(sw, 16)
+		wrapped, received = bw, func() []byte { _ = bw.Flush(); return sw.got }
+	case wrapRich:
+		rw := &richWriter{scriptWriter{script: c.Script}}
+		wrapped, received = rw, func() []byte { return rw.got }
+	}
+	tw := ioutil.NewTruncatedWriter(wrapped, limit)
 	var all []byte
 	next := 0
 	for i, sz := range c.Chunks {
@@ -339,8 +395,8 @@ func runWrite(c writeCase) (what string, calls int) {
 			return fmt.Sprintf("write %d modified the caller's slice", i), calls
 		}
 		want := all[:min(uint(len(all)), limit)]
-		if !bytes.Equal(sw.got, want) {
-			return fmt.Sprintf("after write %d: wrapped writer received %q, want the first min(total,limit)=%d bytes %q", i, sw.got, len(want), want), calls
+		if got := received(); !bytes.Equal(got, want) {
+			return fmt.Sprintf("after write %d: wrapped writer (%s) received %q, want the first min(total,limit)=%d bytes %q", i, wrapNames[c.Wrapped], got, len(want), want), calls
 		}
 	}
 	return "", calls
@@ -813,6 +869,33 @@ func TestWriter(t *testing.T) {
 		r.Eval(evals)
 		r.NontrivialN(nontriv)
 		r.Count("writer_histories", int64(hi-lo))
+	})
+	// the standard library's writers (and one offering every optional writing interface) as the wrapped writer
+	mon.Parallel((maxLimit+1)*nc, func(w, lo, hi int) {
+		var evals int64
+		ci := make([]int, nCalls)
+		for i := lo; i < hi; i++ {
+			for wr := wrapBytesBuffer; wr < nWraps; wr++ {
+				c := writeCase{Wrapped: wr, Limit: i % (maxLimit + 1), Chunks: make([]int, nCalls), ViaString: (i/(maxLimit+1))%2 == 1}
+				gen.SeqAt(len(chunkSizes), i/(maxLimit+1), ci)
+				for k, j := range ci {
+					c.Chunks[k] = chunkSizes[j]
+				}
+				if wr == wrapBufio || wr == wrapRich {
+					c.Script = make([]int, nCalls) // all writes succeed
+				}
+				what, calls := runWrite(c)
+				evals += int64(calls)
+				if what != "" {
+					r.Violation(fmt.Sprintf("writer-std:%v", c), fmt.Sprintf("TruncatedWriter(limit %d) around a %s, writes of sizes %v: %s", c.Limit, wrapNames[wr], c.Chunks, what), c)
+				}
+			}
+			if r.TooMany() {
+				break
+			}
+		}
+		r.Eval(evals)
+		r.Count("writer_histories_over_std_writers", int64(hi-lo)*int64(nWraps-1))
 	})
 	r.Exhaustive(fmt.Sprintf("TruncatedWriter: limit 0..%d x every sequence of %d write sizes from %v x every sequence of %d wrapped-writer behaviours {ok, short, error}", maxLimit, nCalls, chunkSizes, nCalls))
 	r.Sample(writeCase{Limit: 4, Chunks: []int{3, 3, 2, 0, 5}, Script: []int{wOK, wShort, wErr, wOK, wOK}})
